@@ -180,15 +180,16 @@ Proof.
   destruct s as [rc ac st sp sl co].
   unfold check_subservice, step_val, check_all_replies_recvd_after_step, set_recvd, set_acc, set_sta,
     set_step, set_comp, append_step, TM_ACCEPTANCE_SUCCESS, TM_ACCEPTANCE_FAILURE, TM_START_SUCCESS,
-    TM_START_FAILURE, TM_STEP_SUCCESS, TM_STEP_FAILURE, TM_COMPLETION_SUCCESS, TM_COMPLETION_FAILURE.
+    TM_START_FAILURE, TM_STEP_SUCCESS, TM_STEP_FAILURE, TM_COMPLETION_SUCCESS, TM_COMPLETION_FAILURE,
+    abs_st, sf_abs, UNSET, FAILURE, SUCCESS.
   cbn [rep_sub rep_step recvd acc sta step steps comp].
-  destruct stp as [v|];
+  destruct (Z.eqb_spec ac (-1)); destruct (Z.eqb_spec st (-1)); destruct (Z.eqb_spec sp (-1));
+    cbn [negb andb]; cbv iota; cbn [recvd acc sta step steps comp].
+  all: destruct stp as [v|];
   (destruct C as [E|[E|[E|[E|[E|[E|[E|E]]]]]]]; subst sub; eval_closed; cbv iota).
   all: try (exfalso; apply Hv; [lia|reflexivity]).
   all: eexists; eexists; (split; [reflexivity|]).
-  all: unfold abs_st, table; cbn [recvd acc sta step steps comp s_recvd s_acc s_sta s_step s_steps s_comp];
-    rewrite ?sf_set_abs; unfold sf_abs, UNSET, FAILURE, SUCCESS.
-  all: repeat (cbn [negb andb orb recvd acc sta step steps comp Z.eqb Pos.eqb];
-               match goal with |- context [?a =? ?b] => is_var a; destruct (Z.eqb_spec a b) end).
-  all: cbn [negb andb orb recvd acc sta step steps comp Z.eqb Pos.eqb]; try reflexivity; try lia.
+  all: unfold table; cbn [recvd acc sta step steps comp s_recvd s_acc s_sta s_step s_steps s_comp sf_set negb andb orb Z.eqb Pos.eqb].
+  all: repeat match goal with |- context [?a =? ?b] => is_var a; destruct (Z.eqb_spec a b); try lia end.
+  all: cbn [negb andb orb sf_set Z.eqb Pos.eqb]; try reflexivity; try lia.
 Qed.
